@@ -26,7 +26,8 @@ ATTRS = {
     'nbdime-merge-nl': '*.ipynb\tmerge=jupyternotebook\n' + RULES + '\n',
     'nbdime-oneline': RULES + '\n*.ipynb diff=jupyternotebook merge=jupyternotebook\n',
 }
-LOCS = ['default', 'xdg', 'corefile']
+# 'corefile+stale': core.attributesfile is set AND a left-over default file ~/.config/git/attributes still exists (git ignores it)
+LOCS = ['default', 'xdg', 'corefile', 'corefile+stale']
 TOOLKEYS = ['merge.tool', 'diff.guitool', 'mergetool.prompt', 'difftool.prompt']
 
 # foreign settings that live in the same sections nbdime edits (written when init['extras'] is true)
@@ -108,7 +109,7 @@ class World:
             if init['loc'] == 'xdg':
                 os.environ['XDG_CONFIG_HOME'] = os.path.join(self.home, 'xdg')
                 self.global_attr = os.path.join(self.home, 'xdg', 'git', 'attributes')
-            elif init['loc'] == 'corefile':
+            elif init['loc'] in ('corefile', 'corefile+stale'):
                 self.global_attr = os.path.join(self.home, 'myattrs', 'global.attributes')
             else:
                 self.global_attr = os.path.join(self.home, '.config', 'git', 'attributes')
@@ -133,8 +134,13 @@ class World:
         init = self.init
         with open(self.global_cfg, 'w') as fh:
             fh.write('[user]\n\tname = Checker\n\temail = checker@example.invalid\n')
-        if init['loc'] == 'corefile':
+        if init['loc'] in ('corefile', 'corefile+stale'):
             self._git(['config', '-f', self.global_cfg, 'core.attributesfile', '~/myattrs/global.attributes'])
+        if init['loc'] == 'corefile+stale':
+            stale = os.path.join(self.home, '.config', 'git', 'attributes')
+            os.makedirs(os.path.dirname(stale), exist_ok=True)
+            with open(stale, 'wb') as fh:
+                fh.write(b'*.txt text\n# left over from before core.attributesfile was set\n')
         for scope, path in (('repo', self.repo_cfg), ('global', self.global_cfg)):
             if init['extras']:
                 for k, v in EXTRAS:
